@@ -115,7 +115,7 @@ def cases(tier, seed):
     allc = _all(tier)
     if tier != "quick":
         # seeded random normalised region-graph circuits (softmax weights / mixing, default categorical inputs)
-        allc = allc + [c for c in families.random_members(seed + 3000, 120, normalized=True) if not c.get("explicit")]
+        allc = allc + [c for c in families.random_members(3001, 120, normalized=True) if not c.get("explicit")]
     sems = ["sum-product", "lse-sum", "complex-lse-sum"]
     out = []
     if tier == "quick":
